@@ -277,7 +277,7 @@ def check (e : Engines) (c : Conf) (u : Upstream) (q : Query) (out : Outcome) : 
       else if !(m.qname == q.name && m.qtype == q.qtype) then some "question-altered"
       else if respFilterApplies e c q && u.answer.any (offending e c) then
         none   -- C02's business
-      else if !(m.rcode == u.rcode && deliveredUnchanged c (respFilterApplies e c q) m.answer u.answer && m.ns.isEmpty) then
+      else if !(m.rcode == u.rcode && deliveredUnchanged c (respFilterApplies e c q) m.answer u.answer && eraseAll m.ns == eraseAll u.ns) then
         some "upstream-answer-altered"
       else match qlog with
         | some l => if l.isFiltered then some "forwarded-recorded-filtered" else none
@@ -320,7 +320,7 @@ def check (e : Engines) (c : Conf) (u : Upstream) (q : Query) (out : Outcome) : 
             | none => some "replaced-not-recorded"
         | none =>
           if m.rcode == u.rcode && m.qname == q.name && m.qtype == q.qtype &&
-             deliveredUnchanged c true m.answer u.answer && m.ns.isEmpty then
+             deliveredUnchanged c true m.answer u.answer && eraseAll m.ns == eraseAll u.ns then
             (match qlog with
              | some l => if l.isFiltered || l.origAnswer.isSome then some "clean-recorded-filtered" else none
              | none => none)
@@ -328,7 +328,7 @@ def check (e : Engines) (c : Conf) (u : Upstream) (q : Query) (out : Outcome) : 
       else
         -- not applicable: protection off, filtering off for the client, or name allow-listed
         if m.rcode == u.rcode && m.qname == q.name && m.qtype == q.qtype &&
-           deliveredUnchanged c false m.answer u.answer && m.ns.isEmpty then none
+           deliveredUnchanged c false m.answer u.answer && eraseAll m.ns == eraseAll u.ns then none
         else some "inapplicable-answer-altered"
 
 def specOK (e : Engines) (c : Conf) (u : Upstream) (q : Query) (out : Outcome) : Bool :=
